@@ -146,6 +146,13 @@ def check_parse_uri_lookup(cx: Cx, ob: Ob) -> None:
         if r == ("attr", me, "trie"):
             queries.append((c, ev, ctx))
     if not queries:
+        # the longest-prefix search written out as a probe of the reverse table with leading substrings of the
+        # argument (judged by the FLOW obligation: direction and completeness of the probe)
+        rpm = ("attr", me, "reverse_prefix_map")
+        probes = [(c, ev, ctx) for c, ev, ctx in s.calls("get") if op(c[1]) == "attr" and c[1][1] == rpm and c[2] and op(c[2][0]) == "slice" and c[2][0][1] == ("param", "uri") and ctx.loops]
+        if probes:
+            ob.site(f"{where(fn, probes[0][1].line)} {fn.qualname}", f"probe {show(probes[0][0])[:50]} in a loop over prefix lengths")
+            return
         ob.undecide("no query of self.trie found in parse_uri (lookup goes through an unrecognised construct)")
         return
     for c, ev, ctx in queries:
@@ -175,6 +182,20 @@ def check_parse_uri_lookup(cx: Cx, ob: Ob) -> None:
             # tail, exactly as when the trie itself raises
             rn = callee_name(o[1]) if op(o[1]) == "call" else (o[1][1].rsplit(".", 1)[-1] if op(o[1]) in ("builtin", "cls", "name") else None)
             if rn is not None and any(rn == n.split(".")[-1] or cx.model.is_subclass(rn, n.split(".")[-1]) for names in o[3] for n in names):
+                # ... but only BEFORE the trie has answered, or because the identifier hook rejects the remainder
+                # (as parse_curie does): a match thrown away on a test of the match itself loses a registered URI
+                trie_q = [c_ for c_, _, _ in queries]
+                after = [g for g in ctx.guards if g.kind == "guard" and any(x in trie_q for x in subterms(g.a))]
+                bad_after = [g for g in after if not any(op(x) == "call" and callee_name(x) == "standardize_identifier" for x in subterms(g.a))]
+                if bad_after:
+                    g0 = bad_after[-1]
+                    ob.violate(
+                        fn.qualname,
+                        where(fn, o[2]),
+                        f"parse_uri throws away a match of the trie when `{'' if g0.b else 'not '}{show(g0.a)[:70]}`: a URI under a registered prefix is reported as not convertible",
+                        witness="e.g. the bare URI prefix itself, or any other condition on the matched key",
+                        detail="failure-after-match",
+                    )
                 continue
         if o[0] == "raise" or (o[0] == "return" and (is_const(o[1], None) or o[1] == ("tuple", (NONE, NONE)))):
             if not handlers:
@@ -210,6 +231,24 @@ def check_remainder(cx: Cx, ob: Ob) -> None:
             # have established (exactly one trie key starts with K / no subtrie below K)
             rpm = ("attr", me, "reverse_prefix_map")
             K = P[2] if op(P) == "item" and P[1] == rpm else (P[2][0] if op(P) == "call" and callee_name(P) == "get" and op(P[1]) == "attr" and P[1][1] == rpm and P[2] else None)
+            if K is not None and any(x == uri for x in subterms(K)) and ctx.loops and any(op(x) == "bv" for x in subterms(K)):
+                # probing with one leading substring after the other: the first hit is the longest registered
+                # prefix iff the substrings get shorter (range(len(uri), .., -1))
+                lp_ = ctx.loops[-1]
+                rng = lp_.b
+                desc = op(rng) == "call" and rng[1] == ("builtin", "range") and len(rng[2]) == 3 and is_const(rng[2][2], -1) and rng[2][0] == ("call", ("builtin", "len"), (uri,), ())
+                asc = op(rng) == "call" and rng[1] == ("builtin", "range") and (len(rng[2]) < 3 or (is_const(rng[2][2]) and isinstance(rng[2][2][1], int) and rng[2][2][1] > 0))
+                if desc and op(K) == "slice" and K[1] == uri and K[3] == lp_.a and is_const(K[2], None):
+                    ob.site(f"{where(fn, line)} {fn.qualname}", "probe of reverse_prefix_map with ever shorter leading substrings: first hit = longest prefix")
+                    if not (op(I) == "slice" and I[1] == uri and I[2] == lp_.a and is_const(I[3], None)):
+                        ob.violate(fn.qualname, where(fn, line), f"identifier `{show(I)[:50]}` is not the rest of the URI after the probed prefix", detail="remainder")
+                elif op(rng) == "call" and rng[1] == ("builtin", "range") and len(rng[2]) == 3 and is_const(rng[2][2], -1) and op(rng[2][0]) == "bin" and rng[2][0][1] == "-" and rng[2][0][2] == ("call", ("builtin", "len"), (uri,), ()) and is_const(rng[2][0][3]) and isinstance(rng[2][0][3][1], int) and rng[2][0][3][1] > 0:
+                    ob.violate(fn.qualname, where(fn, line), f"parse_uri probes the leading substrings from length len(uri) - {rng[2][0][3][1]} downwards: the whole string is never tried, so a URI that IS a registered URI prefix (empty identifier) falls to a shorter prefix or to None", witness="compress('http://purl.obolibrary.org/obo/GO_') with that URI prefix registered", detail="not-longest")
+                elif asc:
+                    ob.violate(fn.qualname, where(fn, line), "parse_uri probes reverse_prefix_map with ever LONGER leading substrings and returns the first hit: the shortest registered prefix wins", witness="nested URI prefixes: the shorter prefix would win", detail="not-longest")
+                else:
+                    ob.undecide(f"parse_uri probes reverse_prefix_map with `{show(K)[:40]}` over `{show(rng)[:40]}`: that the first hit is the longest prefix is not decided")
+                continue
             if K is not None and any(x == uri for x in subterms(K)):
                 from ..rules import guard_atoms
 
@@ -259,6 +298,8 @@ def check_remainder(cx: Cx, ob: Ob) -> None:
 
 def remainder_verdict(I, uri, key):
     lenkey = ("call", ("builtin", "len"), (key,), ())
+    if op(I) == "call" and op(I[1]) == "attr" and I[1][2] == "standardize_identifier" and len(I[2]) == 2:
+        I = I[2][1]  # the identifier hook (identity unless a subclass says otherwise: X14)
     if op(I) == "slice" and I[1] == uri:
         lo, hi, step = I[2], I[3], I[4]
         if not is_const(hi, None) or not is_const(step, None):
@@ -357,7 +398,15 @@ def curie_join_check(cx: Cx, ob: Ob, fn_name: str, base_pred, base_desc: str) ->
     arg = ("param", fn.params[1].name)
 
     def asks(t) -> bool:
-        return isinstance(t, tuple) and any(self_call(x, me) and arg in x[2] for x in subterms(t))
+        # a method of the converter applied to (a piece of) the argument, or one of the lookup tables consulted
+        if not isinstance(t, tuple):
+            return False
+        for x in subterms(t):
+            if self_call(x, me) and any(y == arg for a_ in x[2] for y in subterms(a_)):
+                return True
+            if op(x) == "attr" and x[1] == me and x[2] in ("prefix_map", "synonym_to_prefix", "reverse_prefix_map", "trie", "records"):
+                return True
+        return False
 
     seen_lines = set()
     for p in s.paths:
